@@ -230,6 +230,21 @@ impl Stable {
 }
 
 /// normalise pool amounts to the highest precision; None when a decimals value is unsupported
+/// like `normalise`, for any decimals up to 36 (the exact solver has no 18-digit limit; the contract
+/// does - a pool it cannot price must be refused, and if it does answer the answer is checked)
+pub fn normalise_any(amounts: &[u128], decimals: &[u8]) -> Option<(Vec<BigUint>, u32)> {
+    let mx = *decimals.iter().max()? as u32;
+    if mx > 36 || amounts.len() != decimals.len() {
+        return None;
+    }
+    let v = amounts
+        .iter()
+        .zip(decimals.iter())
+        .map(|(a, d)| BigUint::from(*a) * BigUint::from(10u64).pow(mx - *d as u32))
+        .collect();
+    Some((v, mx))
+}
+
 pub fn normalise(amounts: &[u128], decimals: &[u8]) -> Option<(Vec<BigUint>, u32)> {
     let mx = *decimals.iter().max()? as u32;
     if mx > 18 || amounts.len() != decimals.len() {
